@@ -57,13 +57,20 @@ def target_shape(g):
 
 @st.composite
 def cases(draw, tier):
-    emph = draw(st.sampled_from(["any", "any", "any", "any", "ann"]))
+    emph = draw(st.sampled_from(["any", "any", "any", "any", "ann", "any", "any", "kronprod"]))
     g = gen.TraitGen(draw, avoid=AVOID, dtypes=gen.CPLX + gen.CPLX + gen.ALLDT if emph == "ann" else gen.ALLDT)
     if emph == "ann":
         # annotated wrappers around structured (by construction Hermitian / positive definite / unitary) operators, real
         # and complex, alone or under one combinator: the annotation-driven short-cuts of products and transposes
         tree = g.annotated(g.integer(1, 6), g.pick([0, 1, 1, 2]))
         r, c = IR.denote(tree).shape
+    elif emph == "kronprod" and "kron" not in AVOID:
+        # round 6: products of two Kronecker operators with pairwise conforming leading factors and unequal factor counts
+        r, c = g.integer(1, 12), g.integer(1, 12)
+        tree = g.k_kronprod(r, c)
+        if g.boolean():
+            tree = g.pick([{"k": "T", "ch": [tree]}, {"k": "sum", "via": "op", "ch": [tree, g.op(r, c, 0)]}, {"k": "neg", "ch": [tree]}])
+            r, c = IR.denote(tree).shape
     else:
         r, c = target_shape(g)
         depth = g.pick([0, 1, 1, 2, 2, 3] + ([4] if tier == "thorough" else []))
